@@ -79,6 +79,52 @@ def rs_expected(F, G, src, L):
     return out
 
 
+def encmat_correspondence(c):
+    """the generator matrix each C codec builds (of_rs_new / of_rs_2m_build_encoding_matrix: Vandermonde rows, of_invert_vdm, matmul)
+    against the canonical generator of the extracted model (RSEnc.rs_repairs on the identity payload: repair j, byte i = G[j][i])"""
+    rng = c.rng
+    q = c.tier == "quick"
+    shapes = [(2, 4, k, n) for n in range(2, 16) for k in range(1, n)]
+    if q:
+        shapes = rng.sample(shapes, 40)
+    s8 = [(1, 2), (1, 255), (2, 4), (3, 6), (9, 20), (22, 30), (40, 60), (100, 130), (254, 255), (128, 255)] + [(k, min(255, k + rng.rng(1, 40))) for k in (rng.rng(1, 150) for _ in range(6 if q else 60))]
+    for (k, n) in s8:
+        shapes += [(1, 8, k, n), (2, 8, k, n)]
+    reqs = ["A %d %d %d %d" % s for s in shapes]
+    exe = vlib.build_c(c.snap, "drv_encmat", "drv_encmat.c", exclude=("of_reed-solomon_gf_2_8.c",))
+    ans, crashes = vlib.run_driver(exe, reqs, prefix="R")
+    for kx, se in crashes[:4]:
+        c.violation("generator construction crashed: %s" % reqs[kx], "encmat-crash", {"stream": "encmat", "request": reqs[kx], "stderr": se})
+    mreq = []
+    for (codec, m, k, n) in shapes:
+        ident = ".".join("".join("01" if b == i else "00" for b in range(k)) for i in range(k))
+        mreq.append("G %d %d %d %d %s" % (m, k, n, k, ident))
+    try:
+        rc, mout, _ = vlib.sh([vlib.ocaml_model()], input="\n".join(mreq) + "\n", timeout=3000)
+        ml = mout.splitlines()
+    except vlib.BuildError as e:
+        c.proof_failed.append({"model_build": str(e)[-1500:]}); return 0
+    n_ok = 0
+    for i, (codec, m, k, n) in enumerate(shapes):
+        a = ans[i]
+        if a.startswith(("CRASH", "SKIPPED")):
+            continue
+        got = a.split()[1] if len(a.split()) > 1 else ""
+        rows = [got[2 * k * j:2 * k * (j + 1)] for j in range(n)]
+        want = ["".join("01" if b == j else "00" for b in range(k)) for j in range(k)]
+        mo = ml[i][2:].strip() if i < len(ml) else ""
+        want += (mo.split(".") if mo and mo != "-" else [])
+        if got == "NONE" or rows != want:
+            bad = next((j for j in range(min(len(rows), len(want))) if rows[j] != want[j]), 0)
+            c.violation("codec %d m=%d k=%d n=%d: row %d of the generator matrix the library builds is %s, the canonical systematic generator has %s" % (
+                        codec, m, k, n, bad, rows[bad] if bad < len(rows) else got[:40], want[bad] if bad < len(want) else "?"), "rs-generator-not-canonical",
+                        {"stream": "encmat", "request": reqs[i], "row": bad})
+        else:
+            n_ok += 1
+    c.cov["generator_matrices_agreeing"] = n_ok
+    return n_ok
+
+
 def run(c):
     c.prove(["Properties_C06.v"])
     rng = c.rng
@@ -185,7 +231,8 @@ def run(c):
     for key, v in pairs.items():
         if 1 in v and 2 in v and v[1] and v[2] and "NULL" not in v[1] + v[2] and v[1] != v[2]:
             c.violation("codec 1 and codec 2 (m=8) disagree for k=%d n=%d L=%d" % key[:3], "rs-byte-compat", {"key": list(key)})
-    c.cov["evaluations"] = len(reqs)
+    n_em = encmat_correspondence(c)
+    c.cov["evaluations"] = len(reqs) + n_em
     c.cov["distinct_nontrivial"] = len(set(reqs))
     c.cov["rule"] = ("encoder sessions: RS GF(2^4) (k, n) shapes (all 105 in thorough), RS GF(2^8) boundary and random shapes on both codecs with equal payloads, LDPC random parameters; "
                      "modes: NULL output slots, dirty caller buffers, every symbol built twice, decreasing ESI order; symbol lengths around the unroll boundaries; every request non-trivial")
